@@ -120,8 +120,8 @@ def handmade_impl6():
     return c
 
 
-OPS = ['cell', 'fork', 'gof', 'limp', 'lexp', 'rml', 'rmn', 'ioapp', 'ioset', 'elim', 'copy', 'pickle', 'subst', 'chain', 'inst']
-OP = st.tuples(st.sampled_from(OPS + ['cell', 'fork', 'limp', 'limp', 'lexp', 'lexp', 'rml', 'rml', 'rmn', 'chain', 'inst', 'subst', 'elim']),
+OPS = ['cell', 'fork', 'gof', 'limp', 'lexp', 'rml', 'rmn', 'ioapp', 'ioset', 'elim', 'copy', 'pickle', 'subst', 'chain', 'inst', 'wide', 'rmtail']
+OP = st.tuples(st.sampled_from(OPS + ['rmtail', 'cell', 'fork', 'limp', 'limp', 'lexp', 'lexp', 'rml', 'rml', 'rmn', 'chain', 'inst', 'subst', 'elim']),
                st.integers(0, 999), st.integers(0, 999), st.integers(0, 5), st.integers(0, 5))
 
 
@@ -413,6 +413,51 @@ class Interp:
                     Line(c, (self.node(dk), dpin), (self.node(rk), rpin))
                     m.add_line(dk, dpin, rk, rpin)
                     done = True
+        elif name == 'wide':
+            # macro: a pin list of 16..40 entries (a clock / reset net: one fork read by many pins, or one cell with many operands) grown
+            # through implicit pins
+            free_c = [x for x in NAMES if (x, False) not in m.nodes]
+            free_f = [x for x in NAMES if (x, True) not in m.nodes]
+            forks_now = [k for k in keys if k[1]]
+            cells_now = [k for k in keys if not k[1]]
+            if not cells_now and free_c:
+                Node(c, free_c[0], KINDS[b % len(KINDS)]); m.nodes[(free_c[0], False)] = dict(kind=KINDS[b % len(KINDS)], ins=[], outs=[])
+                cells_now = [(free_c[0], False)]
+            if not forks_now and free_f:
+                Node(c, free_f[0]); m.nodes[(free_f[0], True)] = dict(kind='__fork__', ins=[], outs=[])
+                forks_now = [(free_f[0], True)]
+            if cells_now and forks_now:
+                fk = forks_now[a % len(forks_now)]
+                target = 16 + (b % 25)
+                j = 0
+                while len(m.nodes[fk]['outs']) < target:
+                    rk = cells_now[(a + j) % len(cells_now)]; j += 1
+                    dpin, rpin = m.free(m.nodes[fk]['outs']), m.free(m.nodes[rk]['ins'])
+                    Line(c, self.node(fk), self.node(rk)); m.add_line(fk, dpin, rk, rpin)
+                self.flags.add('fork_with_16+_outputs')
+                done = True
+        elif name == 'rmtail':
+            # several lines of the widest pin list removed in a row (newest first / oldest first / from the middle), then - q odd - an implicit-pin
+            # line added straight away
+            wide = sorted((k for k in keys if len([x for x in m.nodes[k]['outs'] if x is not None]) >= 2), key=lambda k: -len(m.nodes[k]['outs']))
+            if wide:
+                dk = wide[0]
+                for _ in range(1 + a % 3):
+                    outs = [x for x in m.nodes[dk]['outs'] if x is not None]
+                    if not outs:
+                        break
+                    li = outs[-1] if b % 3 == 0 else outs[0] if b % 3 == 1 else outs[(a + p) % len(outs)]
+                    lo = self.line_obj(li)
+                    lo.remove(); m.remove_line(li); self.dead.append(lo)
+                cells_now = [k for k in keys if not k[1]]
+                if q % 2 and cells_now:
+                    rk = cells_now[(a + b) % len(cells_now)]
+                    dpin, rpin = m.free(m.nodes[dk]['outs']), m.free(m.nodes[rk]['ins'])
+                    Line(c, self.node(dk), self.node(rk)); m.add_line(dk, dpin, rk, rpin)
+                if len(m.nodes[dk]['outs']) >= 14:
+                    self.flags.add('removals_in_a_row_from_a_wide_pin_list')
+                self.edits_after = 0
+                done = True
         elif name == 'rml' and m.lines:
             ids = sorted(m.lines)
             li = ids[a % len(ids)]
